@@ -896,7 +896,23 @@ impl TransactionBuilder {
             ));
         }
 
-        let col_return: Value = col_input_value.checked_sub(&Value::new(&total_collateral))?;
+        let mut col_return: Value = col_input_value.checked_sub(&Value::new(&total_collateral))?;
+        // the return is an output: tokens the collateral inputs list with quantity 0, and policies listed with
+        // nothing under them, are not written into it
+        if let Some(ma) = col_return.multiasset() {
+            let mut listed = MultiAsset::new();
+            for (policy, assets) in ma.0.iter() {
+                for (name, quantity) in assets.0.iter() {
+                    if !quantity.is_zero() {
+                        listed.set_asset(policy, name, quantity);
+                    }
+                }
+            }
+            col_return = Value::new(&col_return.coin());
+            if listed.len() > 0 {
+                col_return.set_multiasset(&listed);
+            }
+        }
         if col_return.multiasset.is_some() || col_return.coin > BigNum::zero() {
             let return_output = TransactionOutput::new(return_address, &col_return);
             self.check_collateral_return_value_size(&return_output)?;
